@@ -595,7 +595,18 @@ type unknownVal struct{ ssa.Value }
 // through the returned `fresh` flag (the definition was reached without a store).
 func vecElemAt(eff *Effects, vec ssa.Value, k int64, at ssa.Instruction) (vals []ssa.Value, fresh bool, unknown string) {
 	base := vecBase(vec)
-	sameVec := func(v ssa.Value) bool { return vecBase(v) == base }
+	sameVec := func(v ssa.Value) bool {
+		if vecBase(v) == base {
+			return true
+		}
+		// a load of a cell that holds the vector
+		if u, ok := v.(*ssa.UnOp); ok && u.Op == token.MUL {
+			if o := origin1local(v); o != nil && vecBase(o) == base {
+				return true
+			}
+		}
+		return false
+	}
 	seen := map[*ssa.BasicBlock]bool{}
 	var scan func(b *ssa.BasicBlock, from int)
 	scan = func(b *ssa.BasicBlock, from int) {
@@ -811,4 +822,12 @@ func singleStoreCell(a *ssa.Alloc) ssa.Value {
 		return nil
 	}
 	return val
+}
+
+func origin1local(v ssa.Value) ssa.Value {
+	o := origins(v)
+	if len(o) == 1 && o[0] != nil {
+		return o[0]
+	}
+	return nil
 }
